@@ -5,4 +5,5 @@ import DoviModel.Proofs.HevcInject
 import DoviModel.Proofs.HevcRoundTrip
 import DoviModel.Proofs.HevcStage
 import DoviModel.Proofs.HevcOptMap
+import DoviModel.Proofs.HevcMux
 /-! helper lemmas about the stream-command model (Model/Hevc.lean), by topic -/
